@@ -15,6 +15,10 @@ import (
 
 var ErrServerStopped = errors.New("server already stopped")
 
+// maxBatchSizeHint bounds the number of points preallocated for
+// a batch on behalf of the size announced by the UDF process.
+const maxBatchSizeHint = 4096
+
 type Diagnostic interface {
 	Error(msg string, err error, ctx ...keyvalue.T)
 
@@ -694,12 +698,25 @@ func (s *Server) handleResponse(response *agent.Response) error {
 	case *agent.Response_Restore:
 		s.doResponse(response, s.restoreResponse)
 	case *agent.Response_Error:
-		s.diag.Error("received error message", errors.New(msg.Error.Error))
-		return errors.New(msg.Error.Error)
+		s.diag.Error("received error message", errors.New(msg.Error.GetError()))
+		return errors.New(msg.Error.GetError())
 	case *agent.Response_Begin:
+		if msg.Begin == nil {
+			return errors.New("received begin batch response without a begin batch message")
+		}
 		s.begin = msg.Begin
-		s.points = make([]edge.BatchPointMessage, 0, msg.Begin.Size)
+		// The size is only a hint and comes from the peer, do not trust it with the allocation.
+		size := msg.Begin.Size
+		if size < 0 {
+			size = 0
+		} else if size > maxBatchSizeHint {
+			size = maxBatchSizeHint
+		}
+		s.points = make([]edge.BatchPointMessage, 0, size)
 	case *agent.Response_Point:
+		if msg.Point == nil {
+			return errors.New("received point response without a point message")
+		}
 		if s.points != nil {
 			bp := edge.NewBatchPointMessage(
 				s.typeMapsToFields(
@@ -734,6 +751,12 @@ func (s *Server) handleResponse(response *agent.Response) error {
 			}
 		}
 	case *agent.Response_End:
+		if msg.End == nil {
+			return errors.New("received end batch response without an end batch message")
+		}
+		if s.begin == nil {
+			return errors.New("received end batch response without a preceding begin batch response")
+		}
 		begin := edge.NewBeginBatchMessage(
 			msg.End.Name,
 			msg.End.Tags,
@@ -754,7 +777,9 @@ func (s *Server) handleResponse(response *agent.Response) error {
 		s.begin = nil
 		s.points = nil
 	default:
-		panic(fmt.Sprintf("unexpected response message %T", msg))
+		// An empty response or one of a kind this version does not know:
+		// the peer is at fault, this must not take the whole process down.
+		return fmt.Errorf("unexpected response message %T", msg)
 	}
 	return nil
 }
